@@ -484,6 +484,15 @@ impl Wal {
             .create(true)
             .truncate(false)
             .open(&path)?;
+
+        // `append` writes at end-of-file. Cut off a torn or garbage tail left by a crash so that
+        // new records land right behind the last valid one and stay readable.
+        let valid_len = WalReader::valid_len(&path)?;
+        if file.metadata()?.len() > valid_len {
+            file.set_len(valid_len)?;
+            file.sync_data()?;
+        }
+
         Ok(Self {
             path,
             file: Some(file),
@@ -718,8 +727,10 @@ impl WalReader {
         };
 
         const MAX_WAL_RECORD_LEN: u32 = 1024 * 1024; // 1MB
-        if len > MAX_WAL_RECORD_LEN {
-            return Err(Error::WalRecordTooLarge(len));
+        if len == 0 || len > MAX_WAL_RECORD_LEN {
+            // Not a record this writer produced (zero-filled space or garbage after a crash):
+            // treat it like a torn record, i.e. as end-of-log.
+            return Ok(None);
         }
 
         let Some(crc) = self.try_read_u32()? else {
@@ -745,6 +756,13 @@ impl WalReader {
 
         let record = WalRecord::decode_body(&body)?;
         Ok(Some((record_offset, record)))
+    }
+
+    /// Length of the prefix of the log that consists of complete, CRC-valid records.
+    fn valid_len(path: &Path) -> Result<u64> {
+        let mut reader = Self::open(path)?;
+        while reader.next_record()?.is_some() {}
+        Ok(reader.offset)
     }
 
     fn try_read_u32(&mut self) -> Result<Option<u32>> {
